@@ -54,6 +54,9 @@ pub enum Policy {
     FlushInterrupted(u64),
     /// at write call `at`, return Interrupted `n` times in a row (not logged individually), then accept `cap` bytes per call
     InterruptStorm { at: usize, n: u64, cap: usize },
+    /// a device that fills up: accepts bytes (at most `chunk` per call) until it holds `total` bytes - the call that crosses the
+    /// limit is accepted partially - and fails every call after that with the fault (like `&mut [u8]`, a full disk, a quota)
+    Capacity { total: usize, chunk: usize, fault: Fault },
     /// every write call first drives ANOTHER fst builder on the same thread (a journaling/indexing sink), then accepts `cap` bytes
     Reentrant { cap: usize },
 }
@@ -183,6 +186,17 @@ impl Write for Sink {
                     }
                 } else {
                     Outcome::Accepted(offered)
+                }
+            }
+            Policy::Capacity { total, chunk, fault } => {
+                let room = total.saturating_sub(offset);
+                if room == 0 {
+                    match fault {
+                        Fault::Err(k) => Outcome::Failed(k),
+                        Fault::Zero => Outcome::Zero,
+                    }
+                } else {
+                    Outcome::Accepted(offered.min(room).min(chunk.max(1)))
                 }
             }
             Policy::FailFlush(_) | Policy::FlushInterrupted(_) => Outcome::Accepted(offered),
